@@ -24,6 +24,11 @@ func directedC05(c *ctx) {
 		{{Kind: "AEM", Re: bmx.NewRE(`.`)}, {Kind: "AA", Names: []string{"type", "src"}, Scope: "G"}, {Kind: "AK", Names: []string{"script", "style"}}, {Kind: "SP", Flag: true}},
 		{{Kind: "AA", Empty: true, Scope: "E", ScopeEl: []string{"script", "style"}}, {Kind: "AA", Names: []string{"src", "type"}, Scope: "E", ScopeEl: []string{"script", "style"}}, {Kind: "AC"}},
 		{{Kind: "AE", Names: []string{"svg", "math", "title", "textarea", "xmp"}}, {Kind: "AK", Names: []string{"script", "style", "title"}}},
+		// nothing allowed at all (StrictPolicy's shape), with each of the switches that do not allow anything
+		{{Kind: "SP", Flag: false}},
+		{{Kind: "SP", Flag: true}, {Kind: "AC"}},
+		{{Kind: "AK", Names: []string{"script", "style", "title"}}},
+		{{Kind: "SK", Names: []string{"b"}}, {Kind: "RU", Flag: true}},
 	}
 	m := 0
 	mark := func() string { m++; return fmt.Sprintf("ZQ%d", m) }
@@ -56,6 +61,14 @@ func directedC05(c *ctx) {
 	}
 	for _, ops := range policies {
 		pid, pol := c.policy(ops)
+		for _, n := range names {
+			for _, f := range forms(n) {
+				c.san(pid, pol, []byte(f))
+			}
+		}
+	}
+	for _, name := range []string{"@STRICT", "@UGC"} {
+		pid, pol := c.shipped(name)
 		for _, n := range names {
 			for _, f := range forms(n) {
 				c.san(pid, pol, []byte(f))
@@ -876,4 +889,61 @@ func directedC10(c *ctx) {
 		}
 	}
 	families["san"](c)
+}
+
+// directedStaged: a policy is its rule set, so using it between builder calls must leave no trace.
+// Every builder call that changes the verdict for an element (allow it by name or by pattern, give
+// it rules, put it in or take it out of the skip-content set), with the name spelt in lower, upper
+// and mixed case, is made after the half-built policy has sanitised that element; the model applies
+// all the calls at once.
+func directedStaged(c *ctx) {
+	spell := func(s string, k int) string {
+		switch k {
+		case 1:
+			return strings.ToUpper(s)
+		case 2:
+			return strings.ToUpper(s[:1]) + s[1:]
+		}
+		return s
+	}
+	bases := [][]*bmx.Op{
+		{{Kind: "AE", Names: []string{"b", "i"}}, {Kind: "AEM", Re: bmx.NewRE(`^my-`)}},
+		{{Kind: "AE", Names: []string{"b", "i"}}, {Kind: "AA", Names: []string{"id"}, Scope: "M", ScopeRe: bmx.NewRE(`^y-`)}},
+		{{Kind: "AE", Names: []string{"b", "i"}}, {Kind: "AA", Names: []string{"id"}, Scope: "G"}},
+		{{Kind: "AE", Names: []string{"b", "i"}}, {Kind: "AEM", Re: bmx.NewRE(`^my-`)}, {Kind: "SP", Flag: true}},
+	}
+	n := 0
+	for bi, base := range bases {
+		for _, el := range []string{"title", "x-hid", "object", "u", "script"} {
+			for sp := 0; sp < 3; sp++ {
+				name := spell(el, sp)
+				laters := [][]*bmx.Op{
+					{{Kind: "AK", Names: []string{name}}},
+					{{Kind: "SK", Names: []string{name}}},
+					{{Kind: "AE", Names: []string{name}}},
+					{{Kind: "AA", Empty: true, Scope: "E", ScopeEl: []string{name}}},
+					{{Kind: "AA", Names: []string{"id"}, Scope: "E", ScopeEl: []string{name}}},
+					{{Kind: "AEM", Re: bmx.NewRE(`^` + el + `$`)}},
+					{{Kind: "AA", Names: []string{"id"}, Scope: "M", ScopeRe: bmx.NewRE(`^` + el[:1])}},
+					{{Kind: "AE", Names: []string{name}}, {Kind: "AK", Names: []string{name}}},
+				}
+				for li, later := range laters {
+					if sp > 0 && li >= 5 {
+						continue // patterns are case-sensitive and the tokenizer lower-cases: one spelling
+					}
+					first := append([]*bmx.Op{}, base...)
+					if (bi+li)%2 == 0 && li != 1 {
+						first = append(first, &bmx.Op{Kind: "SK", Names: []string{el}})
+					}
+					probes := []string{"<" + el + ">inside</" + el + ">after", "<" + el + " id=\"1\">x", "</" + el + ">", "<" + el + "/>z"}
+					pid, pol := c.policyStaged([][]*bmx.Op{first, later}, probes)
+					for _, d := range append(probes, "<b><"+el+" id=\"1\">t<i>u</i></"+el+">w</b>", "<my-a>m</my-a><y-a id=\"2\">y</y-a>") {
+						c.san(pid, pol, []byte(d))
+					}
+					n++
+				}
+			}
+		}
+	}
+	c.stat("staged_policies", n)
 }
